@@ -358,6 +358,9 @@ type ScriptedServer interface {
 type Service struct {
 	runs sync.Map // id -> *Run
 	seq  atomic.Int64
+	// OnUnknown, if set, sees the context of a handler invocation that carries no known run id
+	// (e.g. because the request metadata did not reach the handler).
+	OnUnknown func(ctx context.Context)
 	// Unknown counts handler invocations without a known run id.
 	Unknown atomic.Int64
 }
@@ -391,11 +394,17 @@ func (s *Service) lookup(ctx context.Context) *Run {
 	v := md.Get(runKey)
 	if len(v) == 0 {
 		s.Unknown.Add(1)
+		if s.OnUnknown != nil {
+			s.OnUnknown(ctx)
+		}
 		return nil
 	}
 	r, ok := s.runs.Load(v[len(v)-1])
 	if !ok {
 		s.Unknown.Add(1)
+		if s.OnUnknown != nil {
+			s.OnUnknown(ctx)
+		}
 		return nil
 	}
 	return r.(*Run)
